@@ -1,4 +1,168 @@
-import NriModel.Basic
-/-! Property theorems for C07 — placeholder until the model is written. -/
+import NriModel.Lemmas.DispatchHistory
+/-!
+Property C07 — failing plugins cannot stall, crash or corrupt a request; handler errors veto it.
+
+Model: `NriModel/Dispatch.lean`. What is PROVED here is the decision logic: how the loop treats
+the outcome of each per-plugin call (`ok` / fatal / the handler's own error), what it returns,
+whom it calls, whom it drops, and how many ticks it can spend. What is only MEASURED (by the
+fault campaign of the harness) is that the Go runtime and ttRPC turn real transport faults into
+those outcomes within the wall-clock bound and without panics or deadlocks.
+-/
 namespace Nri.Props.C07
+open Nri Nri.Events Nri.Dispatch
+
+variable {ρ σ ο ε : Type}
+
+/-- **Result.** If no subscribed plugin answers with its own error, the request returns exactly
+    the merged result of the responses of the subscribed plugins whose call succeeded, in list
+    order (`okResponses`) — plugins whose call failed fatally (closed, protocol error, timeout,
+    already marked closed) contribute nothing and change nothing; and that is precisely what was
+    handed to `apply`. -/
+theorem C07_result (M : Merger ρ σ ο ε) (T : Nat) (ev : EventNo) (pcs : List (Plugin × Call ρ))
+    (hv : hasVeto T ev pcs = false) :
+    (request M T ev pcs).1 = (liftCombine (combine M M.init (okResponses T ev pcs))).map M.finish ∧
+    ((∃ o, (request M T ev pcs).1 = .ok o) → (request M T ev pcs).2.1.oks = okResponses T ev pcs) := by
+  refine ⟨?_, ?_⟩
+  · simp only [request]
+    rw [relay_result_noveto M T ev M.init pcs hv]
+  · rintro ⟨o, ho⟩
+    simp only [request] at ho ⊢
+    cases hr : (relayLoop M T ev M.init pcs).1 with
+    | error e => rw [hr] at ho; cases ho
+    | ok a => exact relay_oks M T ev M.init pcs a hr
+
+/-- **Intact contributions.** Said differently: the reply is the one the request would have
+    produced had the fatally failing plugins not been in the list at all. -/
+theorem C07_as_if_absent (M : Merger ρ σ ο ε) (T : Nat) (ev : EventNo) (pcs : List (Plugin × Call ρ))
+    (hv : hasVeto T ev pcs = false) :
+    (request M T ev pcs).1 = (request M T ev (pcs.filter fun pc => !failsFatally T ev pc)).1 := by
+  have h1 := (C07_result M T ev pcs hv).1
+  have hv' : hasVeto T ev (pcs.filter fun pc => !failsFatally T ev pc) = false := by
+    rw [hasVeto_filter_fatal]; exact hv
+  have h2 := (C07_result M T ev _ hv').1
+  rw [h1, h2, okResponses_filter_fatal]
+
+section examples
+def pA : Plugin := ⟨0, str "10", str "a", 0x1fff#32, false⟩
+def pB : Plugin := ⟨1, str "20", str "b", 0x1fff#32, false⟩
+def pC : Plugin := ⟨2, str "30", str "c", 0x1fff#32, false⟩
+def ok (n : Nat) : Call Nat := ⟨.ok n, true, 1⟩
+def listM : Merger Nat (List Nat) (List Nat) Unit := ⟨[], fun a _ r => .ok (a ++ [r]), id⟩
+end examples
+
+/-- the middle plugin dies (closed connection; or answers after the deadline): the other two come through -/
+example : (request listM 5 4 [(pA, ok 1), (pB, ⟨.fatal .closed, false, 0⟩), (pC, ok 3)]).1 = .ok [1, 3] ∧
+    (request listM 5 4 [(pA, ok 1), (pB, ⟨.ok 2, true, 6⟩), (pC, ok 3)]).1 = .ok [1, 3] ∧
+    hasVeto 5 4 [(pA, ok 1), (pB, ⟨.ok 2, true, 6⟩), (pC, ok 3)] = false := ⟨rfl, rfl, rfl⟩
+
+/-- **Veto.** If the plugin at some position answers with its own error `m`, and nothing before
+    it aborted the loop, then the request fails with exactly that error (an `Except.error`: there
+    is no partial result), the plugins called are the subscribed ones before it and itself, only
+    the responses before it were ever applied, and — plugin identities being distinct — NO
+    plugin behind it is called. -/
+theorem C07_veto (M : Merger ρ σ ο ε) (T : Nat) (ev : EventNo)
+    (pre post : List (Plugin × Call ρ)) (p : Plugin) (c : Call ρ) (m : Str)
+    (hs : subscribed ev p = true) (ho : (effOut T p c).1 = .handlerErr m)
+    (hv : hasVeto T ev pre = false) (acc' : σ)
+    (hc : combine M M.init (okResponses T ev pre) = .ok acc')
+    (hn : ((pre ++ (p, c) :: post).map (·.1.id)).Nodup) :
+    let out := request M T ev (pre ++ (p, c) :: post)
+    out.1 = .error (.veto p m) ∧
+    out.2.1.attempted = subscribers ev pre ++ [p] ∧
+    out.2.1.oks = okResponses T ev pre ∧
+    (∀ q ∈ post, q.1 ∉ out.2.1.attempted ∧ q.1 ∉ out.2.1.handled) := by
+  have ho' : effOut T p c = (.handlerErr m, (effOut T p c).2) := by
+    rw [← ho]
+  obtain ⟨h1, h2, h3⟩ := relay_veto_at M T ev M.init pre post p c m _ hs ho' hv acc' hc
+  have h4 := relay_veto_nobody_after M T ev M.init pre post p c m _ hs ho' hv acc' hc hn
+  refine ⟨by simp [request, h1, Except.map], h2, h3, ?_⟩
+  intro q hq
+  refine ⟨h4 q hq, fun hh => h4 q hq ?_⟩
+  exact (relay_handled_sublist M T ev M.init _).subset hh
+
+example : (request listM 5 4 [(pA, ok 1), (pB, ⟨.handlerErr (str "no"), true, 1⟩), (pC, ok 3)]).1
+      = .error (.veto pB (str "no")) ∧
+    (request listM 5 4 [(pA, ok 1), (pB, ⟨.handlerErr (str "no"), true, 1⟩), (pC, ok 3)]).2.1.attempted = [pA, pB] :=
+  ⟨rfl, rfl⟩
+
+/-- **Dropped.** Plugin identities being distinct: a plugin that was already marked closed, or
+    whose call in this request failed fatally, is not in the list the request leaves behind. -/
+theorem C07_dropped (M : Merger ρ σ ο ε) (T : Nat) (ev : EventNo) (pcs : List (Plugin × Call ρ))
+    (hn : (pcs.map (·.1.id)).Nodup) (pc : Plugin × Call ρ) (hpc : pc ∈ pcs)
+    (h : pc.1.closed = true ∨
+         (pc.1 ∈ (request M T ev pcs).2.1.attempted ∧ isFatal (effOut T pc.1 pc.2).1 = true)) :
+    pc.1.id ∉ (request M T ev pcs).2.2.map (·.id) := by
+  simp only [request] at h ⊢
+  exact relay_pruned M T ev M.init pcs hn pc hpc h
+
+example : (request listM 5 4 [(pA, ok 1), (pB, ⟨.fatal .protocol, true, 1⟩), (pC, ok 3)]).2.2 = [pA, pC] := by
+  decide
+
+/-- … and from then on it is never called again: in every continuation of the history, as long
+    as no NEW registration carries the same identity, the identity stays out of the plugin list
+    and no later relay calls it. -/
+theorem C07_never_again (Mof : Nat → EventNo → Merger ρ σ ο ε) (T : Nat) (id : Nat) (h : List (Ev ρ))
+    (s s' : LState ρ ο ε) (hr : run? Mof T s h = some s')
+    (hgone : id ∉ s.plugins.map (·.id))
+    (hnew : ∀ p arr, Ev.activate p arr ∈ h → p.id ≠ id) :
+    id ∉ s'.plugins.map (·.id) ∧
+    ∀ d ∈ s'.log, d ∈ s.log ∨ ∀ q ∈ d.trace.attempted, q.id ≠ id :=
+  gone_stays_gone Mof T id h s s' hr hgone hnew
+
+/-- a closed plugin's handler is never recorded as having run -/
+theorem C07_closed_not_handled (M : Merger ρ σ ο ε) (T : Nat) (ev : EventNo) (pcs : List (Plugin × Call ρ)) :
+    ∀ q ∈ (request M T ev pcs).2.1.handled, q.closed = false := by
+  simp only [request]
+  exact relay_handled_open M T ev M.init pcs
+
+/-- **Time.** One plugin call costs at most the request timeout `T` (a call that would take
+    longer is cut off at `T`), so a request spends at most (plugins called) × `T` ≤
+    (plugins) × `T` ticks in plugin calls — whatever the plugins do. -/
+theorem C07_time (M : Merger ρ σ ο ε) (T : Nat) (ev : EventNo) (pcs : List (Plugin × Call ρ)) :
+    (request M T ev pcs).2.1.ticks ≤ (request M T ev pcs).2.1.attempted.length * T ∧
+    (request M T ev pcs).2.1.attempted.length * T ≤ pcs.length * T := by
+  simp only [request]
+  exact ⟨relay_ticks M T ev M.init pcs, Nat.mul_le_mul_right T (relay_attempted_length M T ev M.init pcs)⟩
+
+example : (request listM 5 4 [(pA, ok 1), (pB, ⟨.ok 2, true, 1000⟩), (pC, ⟨.ok 3, true, 77⟩)]).2.1.ticks = 11 := by
+  decide
+
+/-! ### from the value a call returns to the outcome: `isFatalError` -/
+
+/-- `isFatalError` as it stands drops the plugin for the four error classes it lists
+    (partial: see `unfixed_*` below for what it misses). -/
+theorem C07_classify_partial (e : CallErr) (r : ρ)
+    (h : e = .ttrpcClosed ∨ e = .serverClosed ∨ e = .protocol ∨ e = .deadline) :
+    isFatal (classify isFatalError (.error e : Except CallErr ρ)) = true ∧
+    isFatal (classify isFatalError (.ok r : Except CallErr ρ)) = false := by
+  rcases h with rfl | rfl | rfl | rfl <;> exact ⟨rfl, rfl⟩
+
+/-- FULL statement, true of the repaired classification (docs/fixes/C07-1.patch): every failure
+    of the plugin or its connection drops the plugin; only what the plugin's handler returned
+    (a status error) vetoes; the caller's own cancellation is neither. -/
+theorem C07_classify_fixed (e : CallErr) :
+    (pluginFailure e = true → isFatal (classify isFatalErrorFixed (.error e : Except CallErr ρ)) = true) ∧
+    (∀ m, e = .status m → classify isFatalErrorFixed (.error e : Except CallErr ρ) = .handlerErr m) := by
+  cases e <;> simp [pluginFailure, classify, isFatalErrorFixed, isFatalError, isFatal, errText]
+
+/-- UNFIXED code, witness 1: a reply that does not decode is treated as the handler's own error:
+    the request fails and the other plugins' contributions are lost. -/
+theorem unfixed_undecodable_reply_vetoes :
+    (request listM 5 4 [(pA, ok 1),
+        (pB, ⟨classify isFatalError (.error .undecodable), true, 1⟩), (pC, ok 3)]).1
+      = .error (.veto pB []) ∧
+    (request listM 5 4 [(pA, ok 1),
+        (pB, ⟨classify isFatalErrorFixed (.error .undecodable), true, 1⟩), (pC, ok 3)]).1
+      = .ok [1, 3] := ⟨rfl, rfl⟩
+
+/-- UNFIXED code, witness 2: a connection cut in the middle of a frame (when the multiplexer's
+    `unexpected EOF` wins the race to the caller) fails the request as well. -/
+theorem unfixed_truncated_frame_vetoes :
+    (request listM 5 4 [(pA, ok 1),
+        (pB, ⟨classify isFatalError (.error .truncatedFrame), true, 1⟩), (pC, ok 3)]).1
+      = .error (.veto pB []) ∧
+    (request listM 5 4 [(pA, ok 1),
+        (pB, ⟨classify isFatalErrorFixed (.error .truncatedFrame), true, 1⟩), (pC, ok 3)]).1
+      = .ok [1, 3] := ⟨rfl, rfl⟩
+
 end Nri.Props.C07
